@@ -203,7 +203,11 @@ func (s *soup) stmt(level int) {
 		// NOPs, CLTV, CSV
 		op := byte(r.Pick(0xb0, 0xb1, 0xb1, 0xb2, 0xb2, 0xb3, 0xb9))
 		if op == 0xb1 || op == 0xb2 {
-			switch r.Intn(6) {
+			switch r.Intn(7) {
+			case 6:
+				// non-minimal operand, 2..6 bytes (MINIMALDATA applies to the 5-byte numbers too)
+				d := append(scriptNumBytes(r.Pick(1, 100, 1<<22|3, 1<<31, 1<<32-1)), byte(r.Pick(0x00, 0x00, 0x80)))
+				s.add(pushBytes(d)...)
 			case 0:
 				s.add(pushBytes(scriptNumBytes(r.Pick(1<<31, 1<<32-1, 1<<39-1, 1<<22|3)))...)
 			case 1:
@@ -389,6 +393,43 @@ func genLimits(g *core.Gen, r *core.Rand, keys []keyT) []caseSpec {
 		out = append(out, caseSpec{class: "gen:limit:altstack-left:bare", sp: b.finish(nil, nil)})
 		b = buildSpend(r, wBare, []byte{0x68, 0x51}, randShape(r), fl, nil) // IF in scriptSig, ENDIF in scriptPubKey
 		out = append(out, caseSpec{class: "gen:limit:cond-two-scripts:bare", sp: b.finish(nil, []byte{0x51, 0x63})})
+	}
+	// every opcode above OP_16 counts towards the 201 limit even in an unexecuted branch (outside
+	// tapscript), and no push opcode does: 0 IF <op> ENDIF NOP*k 1 at exactly 201 / 202 counted ops
+	for op := 0; op < 256; op++ {
+		if (op >= 0x63 && op <= 0x68) || (op >= 0x4c && op <= 0x4e) {
+			continue
+		}
+		opb := []byte{byte(op)}
+		counted := 3
+		if op >= 1 && op <= 0x4b {
+			opb = append(opb, rep(0x11, op)...)
+		}
+		if op <= 0x60 {
+			counted = 2
+		}
+		for _, total := range []int{201, 202} {
+			for _, w := range []int{wBare, wP2WSH, wTapscript} {
+				if w != wBare && op%3 != total%3 {
+					continue // thin out the non-bare wrappers
+				}
+				add("opcount-each-opcode", w, cat([]byte{0x00, 0x63}, opb, []byte{0x68}, rep(0x61, total-counted), []byte{0x51}), nil, consensusAll)
+			}
+		}
+	}
+	// initial (witness) stack of 999 / 1000 / 1001 elements: P2WSH has no limit before the first
+	// opcode, tapscript checks the initial stack
+	for _, n := range []int{999, 1000, 1001, 1002} {
+		items := make([][]byte, n)
+		for i := range items {
+			items[i] = []byte{1}
+		}
+		for _, w := range []int{wP2WSH, wP2SHP2WSH, wTapscript} {
+			for _, fl := range []txscript.ScriptFlags{txscript.StandardVerifyFlags, consensusAll} {
+				add("stack-initial", w, cat(rep(0x6d, (n-1)/2), rep(0x75, (n-1)%2)), items, fl)
+				add("stack-initial-nop-first", w, cat([]byte{0x61}, rep(0x6d, (n-1)/2), rep(0x75, (n-1)%2)), items, fl)
+			}
+		}
 	}
 	for _, fl := range flagSets {
 		for w := 0; w < nWrappers; w++ {
